@@ -35,6 +35,23 @@ def parse_Hvals(block):
     return out
 
 
+def parse_Hshared(block):
+    """handle -> {shared id: value} from the s= field of the H lines (the value getSharedComponent<T>(e) returns)"""
+    out = {}
+    for l in block['tags'].get('H', []):
+        t = l.split()
+        f = next((x for x in t[2:] if x.startswith('s=')), None)
+        if f is None or f == 's=-':
+            continue
+        d = {}
+        for x in f[2:].split(','):
+            p_ = x.split(':')
+            if len(p_) == 3 and p_[0] != '?':
+                d[int(p_[0])] = p_[2]
+        out[t[1]] = d
+    return out
+
+
 def parse_job_R(r):
     """R last=<n> t<k>:n<idx>:h/v/v,h/v/v ..."""
     t = r.split()[1:]
@@ -55,7 +72,7 @@ def tier_a_jobs(impl, scripts, aspects, workers_default=15, no_layout=False):
         dirty = {}         # job -> set of handles that must be processed by its next run
         touched = {}       # job -> set of (arch, chunk)
         prev_pos = {}
-        prev_hv, prev_archs, had_do = None, None, False
+        prev_hv, prev_archs, had_do, prev_hsh = None, None, False, {}
         typed = {}
         pending_acts = []
         workers = workers_default
@@ -76,6 +93,7 @@ def tier_a_jobs(impl, scripts, aspects, workers_default=15, no_layout=False):
             op = t[0]
             archs = parse_A(b)
             hv = parse_Hvals(b)
+            hsh = parse_Hshared(b)
             pos = {}
             for ai, a in archs.items():
                 for p_, h in enumerate(a['ents']):
@@ -125,7 +143,7 @@ def tier_a_jobs(impl, scripts, aspects, workers_default=15, no_layout=False):
                 had_do = True
             if op in ('runjob', 'runtyped') and had_do and prev_hv is not None:
                 # the callback made structural calls (deferred to the end of the run): what the run saw is the state before it
-                hv, archs, pos = prev_hv, prev_archs, dict(prev_pos)
+                hv, archs, pos, hsh = prev_hv, prev_archs, dict(prev_pos), prev_hsh
             if op == 'jobact' and len(t) > 4:
                 pending_acts.append((int(t[1]), t[3], int(t[4])))
             if op in ('runjob', 'runtyped'):
@@ -137,12 +155,13 @@ def tier_a_jobs(impl, scripts, aspects, workers_default=15, no_layout=False):
                     # the driver's typed jobs (PerEntityJob<T>): no version filter; arguments (palette, const, optional)
                     j = 'T' + t[1]
                     if j not in typed:
-                        spec = [[(0, False, False)], [(0, True, False), (1, True, True)], [(2, False, False), (4, True, False)], [(2, True, True), (1, False, False)]][int(t[1])]
+                        # typed job 4 also takes shared component type 0 by reference (scripts with it use no other shared type)
+                        spec = [[(0, False, False)], [(0, True, False), (1, True, True)], [(2, False, False), (4, True, False)], [(2, True, True), (1, False, False)], [(0, True, False)]][int(t[1])]
                         reqs_ = []
                         for pal_, cst_, opt_ in spec:
                             cs_ = pal_cids(lines_of[name], blocks, pal_)
                             reqs_.append((cs_[0] if cs_ else -1, cst_, opt_))
-                        typed[j] = dict(reqs=reqs_, chk=set(), ran=False)
+                        typed[j] = dict(reqs=reqs_, chk=set(), ran=False, shared=(t[1] == '4'))
                         dirty[j] = set(); touched[j] = set()
                     jb = typed[j]
                 last, arrays = parse_job_R(r)
@@ -154,6 +173,8 @@ def tier_a_jobs(impl, scripts, aspects, workers_default=15, no_layout=False):
                 N = len(visits)
                 required = set(c for c, cst, opt in jb['reqs'] if not opt)
                 matching = set(h for h, comps in hv.items() if required <= set(comps))
+                if jb.get('shared'):
+                    matching = set(h for h in matching if hsh.get(h))
                 if 'visits' in aspects:
                     if len(set(hs)) != len(hs):
                         fail = ('visits', 'an entity was visited twice: %s' % sorted(h for h in set(hs) if hs.count(h) > 1)[:3])
@@ -163,6 +184,10 @@ def tier_a_jobs(impl, scripts, aspects, workers_default=15, no_layout=False):
                         for task, idx, h, vals in visits:
                             if h not in matching:
                                 fail = ('visits', 'visited %s, which is not a live entity with all required components' % h); break
+                            if jb.get('shared'):
+                                own = ','.join('S%d=%s' % kv for kv in sorted(hsh.get(h, {}).items()))
+                                if vals[len(jb['reqs']):] != [own]:
+                                    fail = ('visits', 'entity %s: shared component handed over as %s, the value of its archetype is %s' % (h, '/'.join(vals[len(jb['reqs']):]), own)); break
                             for (c, cst, opt), v in zip(jb['reqs'], vals):
                                 have = c in hv[h]
                                 if (v == 'null') != (not have):
@@ -232,14 +257,14 @@ def tier_a_jobs(impl, scripts, aspects, workers_default=15, no_layout=False):
                 pending_acts = []
             if op in ('runjob', 'runtyped') and had_do:
                 had_do = False
-                archs = parse_A(b); hv = parse_Hvals(b)
+                archs = parse_A(b); hv = parse_Hvals(b); hsh = parse_Hshared(b)
                 pos = {}
                 for ai_, a_ in archs.items():
                     for p2_, h2_ in enumerate(a_['ents']):
                         pos[h2_] = (ai_, p2_)
                 structural_marks()
             prev_pos = pos
-            prev_hv, prev_archs = hv, archs
+            prev_hv, prev_archs, prev_hsh = hv, archs, hsh
         if fail:
             out.append(dict(script=name, opn=i, op=b['op'], aspect=fail[0], what=fail[1]))
     return out
